@@ -191,9 +191,10 @@ struct Wit {
 // ------------------------------------------------------------------ graph signature
 // Everything observable about the generated graph, in sections (for attribution of a
 // difference between two generations that must agree).
-enum { S_MOB, S_CONS, S_BODY, S_SLAVES, S_GROUND_SLAVES, S_JOINTS, S_NSEC };
-static const char* SECNAME[S_NSEC] = {"mobilizers", "loop_constraints", "body_level_mobilizer_master",
-                                      "slave_lists", "ground_slave_list", "joints"};
+// (compared in this order, least derived first, so that a difference is attributed to its origin)
+enum { S_GROUND_SLAVES, S_SLAVES, S_JOINTS, S_BODY, S_CONS, S_MOB, S_NSEC };
+static const char* SECNAME[S_NSEC] = {"ground_slave_list", "slave_lists", "joints", "body_level_mobilizer_master",
+                                      "loop_constraints", "mobilizers"};
 struct Sig { std::vector<int> s[S_NSEC]; };
 static Sig signature(const MGM& g, int nb, int nj) {
     Sig x;
@@ -242,6 +243,14 @@ static Sig signature(const MGM& g, int nb, int nj) {
 static int firstDifference(const Sig& a, const Sig& b) {
     for (int k = 0; k < S_NSEC; ++k) if (a.s[k] != b.s[k]) return k;
     return -1;
+}
+
+// A violation whose key is computed at run time: the (expensive) witness is built only for the
+// first occurrences of a key; all occurrences are counted.
+static void violLazy(Ctx& c, const std::string& key, Wit& W, const std::string& detail) {
+    static std::map<std::string, int> seen;
+    if (++seen[key] <= 3) { W.detail = detail; c.viol(key, W.make()); }
+    else c.viol(key, Json());
 }
 
 // ------------------------------------------------------------------ outcome of generateGraph
@@ -716,7 +725,7 @@ static void runGraph(Ctx& c, const Input& in, bool enumerated, bool sampleIt) {
                 REQ(K_regenThrows, r2.err == E_NONE, "generateGraph after clearGraph threw: " << firstLine(r2.msg, 300));
                 if (r2.err == E_NONE) {
                     const int d = firstDifference(s1, signature(A, nb, nj));
-                    if (d >= 0) { W.detail = std::string("graph regenerated after clearGraph differs from the first one in section ") + SECNAME[d]; c.viol(std::string("regen_after_clear:differs:") + SECNAME[d], W.make()); }
+                    if (d >= 0) violLazy(c, std::string("regen_after_clear:differs:") + SECNAME[d], W, std::string("graph regenerated after clearGraph differs from the first one in section ") + SECNAME[d]);
                     else { static const std::string k = "regen_after_clear:same"; c.require(k, true, wf); }
                 }
             }
@@ -730,15 +739,15 @@ static void runGraph(Ctx& c, const Input& in, bool enumerated, bool sampleIt) {
             REQ(K_detOutcome, rb.err == E_NONE, "same input in a second object threw: " << firstLine(rb.msg, 300));
             if (rb.err == E_NONE) {
                 int d = firstDifference(s1, signature(B, nb, nj));
-                if (d >= 0) { W.detail = std::string(in.viaEdits ? "graph of the maker built through add/delete edits" : "graph of the first object") + " differs from that of a fresh object with the same input in section " + SECNAME[d];
-                              c.viol(std::string(in.viaEdits ? "edit:graph_differs_from_direct_build:" : "determinism:second_object_differs:") + SECNAME[d], W.make()); }
+                if (d >= 0) violLazy(c, std::string(in.viaEdits ? "edit:graph_differs_from_direct_build:" : "determinism:second_object_differs:") + SECNAME[d], W,
+                                     std::string(in.viaEdits ? "graph of the maker built through add/delete edits" : "graph of the first object") + " differs from that of a fresh object with the same input in section " + SECNAME[d]);
                 else { static const std::string k = "determinism:second_object_same"; c.require(k, true, wf); }
                 c.setPhase("generateGraph twice without clearGraph");
                 GenResult rb2 = generate(B);
                 REQ(K_regenThrows, rb2.err == E_NONE, "second generateGraph (no clearGraph) threw: " << firstLine(rb2.msg, 300));
                 if (rb2.err == E_NONE) {
                     d = firstDifference(s1, signature(B, nb, nj));
-                    if (d >= 0) { W.detail = std::string("calling generateGraph() a second time without clearGraph() changed the graph in section ") + SECNAME[d]; c.viol(std::string("regen_no_clear:differs:") + SECNAME[d], W.make()); }
+                    if (d >= 0) violLazy(c, std::string("regen_no_clear:differs:") + SECNAME[d], W, std::string("calling generateGraph() a second time without clearGraph() changed the graph in section ") + SECNAME[d]);
                     else { static const std::string k = "regen_no_clear:same"; c.require(k, true, wf); }
                 }
             }
